@@ -26,12 +26,14 @@ pub(crate) fn get_backup_path(file: &Path) -> Result<PathBuf> {
 }
 
 pub(crate) fn needs_backup(file: &Path, conf: &Config) -> Result<bool> {
+    // try_exists(): a failed probe of the destination must not read
+    // as "nothing to back up".
     let need = match conf.backup {
         Backup::None => false,
-        Backup::Auto if file.exists() => {
+        Backup::Auto if file.try_exists()? => {
             has_backup(file)?
         }
-        Backup::Numbered if file.exists() => true,
+        Backup::Numbered if file.try_exists()? => true,
         _ => false,
     };
     Ok(need)
